@@ -110,13 +110,21 @@ class VirtualLoop(asyncio.SelectorEventLoop):
     def run_in_executor(self, executor, func, *args):
         if not self.inline_executor:
             return super().run_in_executor(executor, func, *args)
+        # no threads under the virtual clock, but the shape of a real executor is kept: the call happens later and its
+        # completion reaches the awaiting task on a later loop iteration (an already-done future would not suspend at all)
         fut = self.create_future()
-        try:
-            fut.set_result(func(*args))
-        except BaseException as exc:  # noqa: BLE001
-            if isinstance(exc, (KeyboardInterrupt, SystemExit)):
-                raise
-            fut.set_exception(exc)
+
+        def run():
+            if fut.cancelled():
+                return
+            try:
+                fut.set_result(func(*args))
+            except BaseException as exc:  # noqa: BLE001
+                if isinstance(exc, (KeyboardInterrupt, SystemExit)):
+                    raise
+                fut.set_exception(exc)
+
+        self.call_soon(run)
         return fut
 
     # ---- diagnostics
